@@ -129,6 +129,9 @@ ATOMS = [
     # whitespace that must be preserved inside quoted keys and patterns (runs of blanks, tab, newline, leading blank)
     A("literal", "a  b"), A("glob", "rack  7*", cs=False), A("literal", " lead"), A("glob", "line\nbreak*"),
     A("literal", "v\tw", key="my key"), A("glob", "x*", key="my  key"), A("re", "a  b"), A("literal", "tab\there", cs=False),
+    # values that are present but falsy and no strings: matched as str(value), not as the empty string
+    A("literal", "False", key="flag"), A("literal", "0", key="n"), A("re", "\\[\\]", key="role"), A("glob", "0.?", key="none"),
+    A("literal", "{}", key="my key"),
 ]
 
 SYSTEMS = [
@@ -151,6 +154,7 @@ SYSTEMS = [
     ["line break-1", {}],
     ["tab\there", {}],
     ["tab here", {}],
+    ["falsy-1", {"flag": False, "n": 0, "role": [], "none": 0.0, "my key": {}}],
 ]
 
 
